@@ -101,9 +101,25 @@ def check_binary_chain(rules, e1: str, e2: str, const_names: Dict[str, str], op_
             raise AnalysisError("folding chain has no final return")
         res, ln = chosen
         free = sorted({k for k in (k1, k2) if k in ("s1", "s2", "c")})
-        for vals in itertools.product((0, 2), repeat=len(free)):
-            env = dict(zip(free, vals))
-            want = opfun(ops[e1].value(env), ops[e2].value(env))
+        relation = op_name in ("EQUAL", "UNEQUAL")
+        # a relation compares *values as text*: a free symbol may be a bool (truth 0/2, text n/y) or a non-bool option
+        # (truth always 0) whose text happens to be "y", "n" or something else
+        domain = [(0, "n"), (2, "y")] + ([(0, "y"), (0, "n"), (0, "other")] if relation else [])
+        for vals in itertools.product(domain, repeat=len(free)):
+            tenv = dict(zip(free, vals))
+            env = {k: v[0] for k, v in tenv.items()}
+            if relation:
+                def sval(o, kind_env=tenv):
+                    if o.kind == "y":
+                        return "y"
+                    if o.kind == "n":
+                        return "n"
+                    t = kind_env[o.kind][1]
+                    return t if t != "other" else "other:" + o.kind
+                a_, b_ = sval(ops[e1]), sval(ops[e2])
+                want = (2 if a_ == b_ else 0) if op_name == "EQUAL" else (2 if a_ != b_ else 0)
+            else:
+                want = opfun(ops[e1].value(env), ops[e2].value(env))
             rt = ast.unparse(res)
             if rt in ops:
                 got = ops[rt].value(env)
